@@ -1,18 +1,21 @@
 #!/bin/bash
 # usage: tools/run_neutral.sh <id> <CHECK...> — applies a behaviour-preserving refactoring to /repo, runs the quick checks
 # (every one must PASS: an alarm here is a false alarm of the machinery), reverts.
-cd /repo || exit 2
+# NEUTRAL_REPO / NEUTRAL_HOME: a scratch worktree of /repo and a scratch copy of /verif (background sweeps)
+REPO=${NEUTRAL_REPO:-/repo}; HOME_V=${NEUTRAL_HOME:-/verif}
+[ "$REPO" != /repo ] && export VERIF_REPO=$REPO
+cd $REPO || exit 2
 [ -n "$(git status --porcelain)" ] && { echo "repo dirty"; exit 2; }
 id=$1; shift
 git apply --3way /verif/neutral/$id/patch.diff 2>/dev/null || git apply /verif/neutral/$id/patch.diff || { echo "$id APPLY-FAILED"; git reset -q --hard HEAD; git clean -fdq; exit 3; }
 git reset -q
 export GOFLAGS=-mod=mod GOPROXY=off GOSUMDB=off GOTOOLCHAIN=local
 if ! go build ./... 2>/tmp/nb.err || ! go build -tags verif ./... 2>>/tmp/nb.err; then echo "$id BUILD-FAILED $(head -2 /tmp/nb.err)"; git checkout -q -- . ; git clean -fdq; exit 3; fi
-cd /verif
+cd $HOME_V
 for c in "$@"; do
   out=$(./bin/vcheck run $c 2>&1); rc=$?
   echo "$id [$c] exit=$rc $(echo "$out" | grep -E 'signature=|held on|trouble' | head -2 | tr '\n' ' ' | cut -c1-220)"
   [ $rc -eq 1 ] && echo "$out" | grep -A3 VIOLATION | head -8
   [ $rc -eq 2 ] && echo "$out" | tail -12
 done
-cd /repo && git checkout -q -- . && git clean -fdq
+cd $REPO && git checkout -q -- . && git clean -fdq
